@@ -130,7 +130,7 @@ func NewReverseSuffixSearcher(
 	}
 
 	// Create PikeVM for fallback
-	pikevm := nfa.NewPikeVM(forwardNFA)
+	pikevm := nfa.NewSharedPikeVM(forwardNFA)
 
 	// matchStartZero is true only when pattern has .* prefix (e.g., `.*\.txt`).
 	// Only OpStar(AnyChar) guarantees match starts at 0/at — skip reverse DFA.
